@@ -1,3 +1,8 @@
+// STATUS: REPAIRED in /repo by commit "fix: fused terms x histogram path counted non-finite f64 values" (all_docs_in_bounds now also requires
+// `hist_req_data.field_type != ColumnType::F64`, so for f64 columns `bounds.contains(val)` always runs and term_counts is allocated); main ran this
+// demo on the repaired tree: 3/3 tests pass.  The "Recorded" lines below are from the tree BEFORE the fix.  Unit term_histogram_fused now proves
+// collect WITHOUT the `finite_ok` restriction (counted == the general path's bounds.contains for all values incl. NaN / +-inf); mutants
+// revert_type_test_dropped / type_test_inverted restore the defect and are caught; Kani unit fused_nonf64_in_bounds checks that non-F64 codes decode into the unbounded bounds.
 // Candidate finding (C14, unit term_histogram_fused): the fused terms x histogram collector
 // (src/aggregation/bucket/term_agg/term_histogram.rs) and the general path disagree on NON-FINITE f64 values.
 //
@@ -20,8 +25,7 @@
 //   inf_value_fused_does_not_panic ... FAILED   general: a: histo [{key 0.0, doc_count 1}] (inf in no bucket); fused: panicked at
 //                                                src/aggregation/bucket/term_agg/term_histogram.rs:167 "histogram bucket outside dense range"
 //                                                (debug_assert; a release build indexes `counts[term_id * n + i64::MAX as usize]`: out-of-bounds panic)
-// The Verus unit term_histogram_fused states the restriction as the explicit precondition `finite_ok` of collect
-// (all_docs_in_bounds ==> every block value satisfies bounds.contains) and proves fused == direct count only under it.
+// (Before the fix the Verus unit term_histogram_fused stated the restriction as the explicit precondition `finite_ok` of collect.)
 use serde_json::{json, Value};
 use tantivy::aggregation::agg_req::Aggregations;
 use tantivy::aggregation::AggregationCollector;
